@@ -272,5 +272,21 @@ pub fn families() -> Vec<Box<dyn Family>> {
                 }
             },
         ),
+        family(
+            "long_inputs",
+            "long inputs (8..70 KB, thorough up to 300 KB; one terminator style, ASCII words) with 1..4 RARE features injected late (lone CR, CRLF, LF, VT, FF, NEL, NBSP, U+1680, U+2003, U+2028, U+3000, é, a literal U+FFFD, a flag emoji; every third case also an invalid byte sequence) x 6 tokenizers x {[u8], str when valid}",
+            false,
+            1,
+            |cfg| cfg.n(30, 600),
+            |idx, cfg, out| {
+                let mut rng = Rng::for_case(cfg.seed, "c06.long_inputs", idx);
+                let size = if cfg.tiny { 60 } else { *rng.pick(&[8_200usize, 16_500, 33_000, 66_000, cfg.tier.pick(70_000, 300_000)]) };
+                let t = text_gen::long_boring_text(&mut rng, size, idx % 3 == 0);
+                out.sample(|| format!("{} bytes, starts {}", t.len(), show(&t[..t.len().min(40)])));
+                out.nontrivial(&t);
+                out.count("long_inputs_tokenized");
+                check_input(&t, cfg.tiny, out);
+            },
+        ),
     ]
 }
